@@ -150,7 +150,8 @@ StimOf(p) ==
 EmitProg(p) == [id |-> p.id, family |-> p.family, valid |-> ValidTable(p), decoy |-> (Legacy(p) /\ p.decoy),
                 methods |-> [i \in 1..Len(p.methods) |-> ElabMethodR(p.methods[i])],
                 handlers |-> SetToSeq({HandlerRow(p, h) : h \in AllHandlers(p)}),
-                stim |-> StimOf(p)]
+                stim |-> StimOf(p),
+                chain |-> ChainStimOf(p)]       \* transactions for the chain corpus (Chain.tla)
 EmitTables ==
     /\ TLCGet("stats").generated > 0
     /\ ndJsonSerialize(IOEnv.VERIF_OUT, [i \in 1..Len(Progs) |-> EmitProg(Progs[i])])
